@@ -7,6 +7,7 @@ import ProphyModel.Spec
 import ProphyModel.Py
 import ProphyModel.PLayout
 import ProphyModel.Topo
+import ProphyModel.Expr
 open Lean Prophy Prophy.Driver
 
 structure DState where
@@ -24,6 +25,32 @@ def getTy (st : DState) (j : Json) : Except String Ty := do
 
 def stJson (s : Py.St) : Json :=
   Json.mkObj [("size", s.size), ("align", s.align), ("dyn", s.dyn), ("unl", s.unl)]
+
+partial def astOfJson (j : Json) : Except String Expr.Ast := do
+  let a ← j.getArr?
+  let tag ← a[0]!.getStr?
+  match tag with
+  | "num" => pure (.num (← a[1]!.getNat?))
+  | "name" => pure (.name (← a[1]!.getStr?))
+  | "neg" => do pure (.neg (← astOfJson a[1]!))
+  | "bin" =>
+    let op ← (match (← a[1]!.getStr?) with
+      | "+" => pure Expr.BinOp.add | "-" => pure Expr.BinOp.sub | "*" => pure Expr.BinOp.mul
+      | "/" => pure Expr.BinOp.div | "<<" => pure Expr.BinOp.shl | ">>" => pure Expr.BinOp.shr
+      | "|" => pure Expr.BinOp.bor
+      | s => throw s!"bad operator {s}")
+    pure (.bin op (← astOfJson a[2]!) (← astOfJson a[3]!))
+  | s => throw s!"bad ast tag {s}"
+
+def envOfJson (j : Json) : Except String (String → Option Int) := do
+  let o ← j.getObj?
+  let pairs ← o.toList.mapM (fun (k, v) => do pure (k, (← v.getInt?)))
+  pure (fun s => pairs.lookup s)
+
+def evalErrJson : Expr.EvalErr → Json
+  | .divZero => Json.str "division by zero"
+  | .negShift => Json.str "negative shift"
+  | .unknown s => Json.str ("unknown name " ++ s)
 
 def handle (st : DState) (j : Json) : Except String (DState × Json) := do
   let op ← getStr j "op"
@@ -57,6 +84,20 @@ def handle (st : DState) (j : Json) : Except String (DState × Json) := do
     let ty ← getTy st j
     pure (st, Json.mkObj [("size", Spec.sizeTy ty), ("align", Spec.alignTy ty),
       ("dyn", Spec.dynTy ty), ("unl", Spec.unlTy ty)])
+  | "prophyc_eval" =>
+    let text ← getStr j "text"
+    let env ← envOfJson (← j.getObjVal? "env")
+    let octal ← (← j.getObjVal? "octal").getBool?
+    match Expr.evalText octal env text with
+    | .value v => pure (st, Json.mkObj [("value", Json.num (JsonNumber.fromInt v))])
+    | .syntaxError => pure (st, Json.mkObj [("error", "syntax")])
+    | .evalError x => pure (st, Json.mkObj [("error", evalErrJson x)])
+  | "expr_eval_ast" =>
+    let ast ← astOfJson (← j.getObjVal? "ast")
+    let env ← envOfJson (← j.getObjVal? "env")
+    match Expr.eval env ast with
+    | .ok v => pure (st, Json.mkObj [("value", Json.num (JsonNumber.fromInt v))])
+    | .error x => pure (st, Json.mkObj [("error", evalErrJson x)])
   | "prophyc_topo" =>
     let ds ← (← getArr j "decls").toList.mapM (fun d => do
       let k ← getStr d "k"
